@@ -387,12 +387,16 @@ def thread_manager(fb):
     """the daemon function that spawns the worker threads (semantic anchor: calls std::thread::spawn, is reached from
     the binary's main), whatever module it lives in"""
     def find():
-        cands = [b for b in fb.bodies(DAEMON) if b.defkind != 'Closure' and
-                 any(fn and mir.callee_name(fn).endswith('thread::spawn') for _, _, fn in user_calls(b))]
+        is_spawn = lambda nm: nm.endswith('thread::spawn')
         mb = daemon_main(fb)
         if mb is not None:
-            reach = [b for b in cands if reaches_call(fb, mb, lambda nm, p=b.path: nm == p)]
-            cands = reach or cands
+            # the entry point main hands control to: a daemon-library function main calls that (transitively) spawns threads
+            for _, _, fn in user_calls(mb):
+                nb = fb.body(mir.callee_name(fn)) if fn else None
+                if nb is not None and nb.crate.name == DAEMON and nb.defkind != 'Closure' and reaches_call(fb, nb, is_spawn):
+                    return nb
+        cands = [b for b in fb.bodies(DAEMON) if b.defkind != 'Closure' and
+                 any(fn and is_spawn(mir.callee_name(fn)) for _, _, fn in user_calls(b))]
         return cands[0] if cands else None
     return _memo(fb, 'thread_manager', find)
 
